@@ -14,7 +14,9 @@ import (
 	"github.com/trustbloc/sidetree-core-go/pkg/processor"
 	restdoc "github.com/trustbloc/sidetree-core-go/pkg/restapi/dochandler"
 
+	"verifharness/kit/asm"
 	"verifharness/kit/ev"
+	"verifharness/kit/refjcs"
 	"verifharness/kit/wire"
 )
 
@@ -49,11 +51,30 @@ func (u *unpubOps) Get(suffix string) ([]*operation.AnchoredOperation, error) {
 // wired on the given stores; query is the raw query string ("versionTime=..." / "versionId=..." / ""). It returns
 // the HTTP status and the decoded response body (document + metadata), or a panic description.
 func restResolve(c *Case, pub, unpub []*operation.AnchoredOperation, query url.Values) (status int, body map[string]interface{}, panicked string) {
+	return restResolveDID(c, restNS+":"+c.Suffix, pub, unpub, query)
+}
+
+// longForm returns the long-form DID of the case's first create (suffix + encoded initial state), or "".
+func longForm(c *Case) string {
+	for _, o := range c.Ops {
+		if o.Desc.Type != "create" {
+			continue
+		}
+		var req map[string]interface{}
+		if json.Unmarshal(o.Request, &req) != nil || req["suffixData"] == nil || req["delta"] == nil {
+			return ""
+		}
+		init := map[string]interface{}{"suffixData": req["suffixData"], "delta": req["delta"]}
+		return restNS + ":" + c.Suffix + ":" + asm.B64(refjcs.MustCanonicalGo(init))
+	}
+	return ""
+}
+
+func restResolveDID(c *Case, did string, pub, unpub []*operation.AnchoredOperation, query url.Values) (status int, body map[string]interface{}, panicked string) {
 	pc := c.Client()
 	proc := processor.New("verif", &wire.SliceStore{Ops: pub}, pc, processor.WithUnpublishedOperationStore(&unpubOps{ops: unpub}))
 	dh := dochandler.New(restNS, nil, pc, noWriter{}, proc, wire.DocMetrics{})
 	h := restdoc.NewResolveHandler(dh, restMetrics{})
-	did := restNS + ":" + c.Suffix
 	u := "/identifiers/" + did
 	if len(query) > 0 {
 		u += "?" + query.Encode()
